@@ -18,6 +18,7 @@ from harness.common import sexp
 from harness.common.ctx import Timeout, time_limit
 
 EXE = "c05_model"
+LEAN_MODULES = ["Holpy.C05.Props", "Holpy.C05.PropsNorm", "Holpy.C05.PropsInterval"]
 
 # ---------------------------------------------------------------------------------------------
 # 1. macro table (Gen.lean)
@@ -351,6 +352,10 @@ def to_wire(t, atoms):
             return [w, ty_tag(poly(2, True)), to_wire(args[0], atoms), to_wire(args[1], atoms)]
         if n == 1 and nm == "neg" and HT == ht.TFun(B, B):
             return ["neg", to_wire(args[0], atoms)]
+        if n == 1 and nm in WIRE_FNS and HT == ht.TFun(R, R):
+            return ["fn", nm, to_wire(args[0], atoms)]
+        if n == 0 and nm == "pi" and HT == R:
+            return "pi"
     try:
         T = ty_tag(t.get_type())
     except Exception:  # noqa
@@ -788,8 +793,10 @@ def compare(nm, a, b):
 # 4. the steps under test
 # ---------------------------------------------------------------------------------------------
 MODELLED = ["nat_eval", "int_eval", "int_const_ineq", "real_eval", "real_const_eq", "real_compare",
-            "real_const_ineq", "const_inequality"]
-ORACLE_ONLY = ["real_norm", "real_eq_comparison"]
+            "real_const_ineq", "const_inequality", "real_norm"]
+ORACLE_ONLY = ["real_eq_comparison"]
+ATOM_MODE = ["real_norm", "real_eq_comparison"]      # steps that legitimately treat unknown subterms as indeterminates
+WIRE_FNS = ("sqrt", "sin", "cos", "tan", "cot", "sec", "csc", "log", "exp", "abs", "atn")
 BRIDGES = ["z3", "sympy", "simplex_macro", "integer_simplex", "verit_imp_conj"]     # C06 / C16 / C18
 
 # which type the compared terms must have for the step to be *meant* for the goal
@@ -858,7 +865,7 @@ def judge(ctx, macro, tree, goal, th, envs=None):
         return "viol"
     # (b) truth
     vars_ = stmt.get_vars()
-    atom_mode = macro in ORACLE_ONLY
+    atom_mode = macro in ATOM_MODE
     try:
         if not vars_ and not atom_mode:
             v = sem(stmt)
@@ -1171,6 +1178,13 @@ def gen_sized_expr(rng, T, depth):
     while True:
         e = gen_expr(rng, T, depth)
         if digits_bound(e) <= MAX_DIGITS:
+            return e
+
+
+def gen_sized_expr_irr(rng, depth):
+    while True:
+        e = gen_expr(rng, "real", depth, True)
+        if digits_bound(e) <= 2000:
             return e
 
 
@@ -2099,6 +2113,196 @@ def theory_function_stream(ctx):
     return len(terms), len(goals)
 
 
+
+# ---------------------------------------------------------------------------------------------
+# 6f. the combination logic of real_interval_eval against the model (an `iv` context is injected)
+# ---------------------------------------------------------------------------------------------
+class FakeI:
+    """Interval with exact rational endpoints; the same arithmetic as `tablePrims` in IntervalModel.lean."""
+    __slots__ = ("a", "b")
+
+    def __init__(self, a, b):
+        self.a, self.b = Fraction(a), Fraction(b)
+
+    @staticmethod
+    def of(x):
+        return x if isinstance(x, FakeI) else FakeI(Fraction(x), Fraction(x))
+
+    def __add__(self, o):
+        o = FakeI.of(o)
+        return FakeI(self.a + o.a, self.b + o.b)
+    __radd__ = __add__
+
+    def __sub__(self, o):
+        o = FakeI.of(o)
+        return FakeI(self.a - o.b, self.b - o.a)
+
+    def __rsub__(self, o):
+        return FakeI.of(o) - self
+
+    def __neg__(self):
+        return FakeI(-self.b, -self.a)
+
+    def __pos__(self):
+        return self
+
+    def __mul__(self, o):
+        o = FakeI.of(o)
+        ps = [self.a * o.a, self.a * o.b, self.b * o.a, self.b * o.b]
+        return FakeI(min(ps), max(ps))
+    __rmul__ = __mul__
+
+    def __truediv__(self, o):
+        o = FakeI.of(o)
+        if o.a <= 0 <= o.b:
+            raise ZeroDivisionError("interval division by an interval containing 0")
+        return self * FakeI(1 / o.b, 1 / o.a)
+
+    def __rtruediv__(self, o):
+        return FakeI.of(o) / self
+
+    def __abs__(self):
+        if self.a >= 0:
+            return self
+        if self.b <= 0:
+            return FakeI(-self.b, -self.a)
+        return FakeI(0, max(-self.a, self.b))
+
+    def __pow__(self, n):
+        if not isinstance(n, int) or isinstance(n, bool) or n < 0:
+            raise ValueError("FakeI ** %r" % (n,))
+        if n == 0:
+            return FakeI(1, 1)
+        if n % 2 == 1:
+            return FakeI(self.a ** n, self.b ** n)
+        y = abs(self)
+        return FakeI(y.a ** n, y.b ** n)
+
+
+class FakeIvContext:
+    """Stands in for `mpmath.iv` inside real_interval_eval: exact rational interval arithmetic, and
+    exp/log/sqrt/sin/cos computed by the real `mpmath.iv` (any enclosure would do) and RECORDED, so that
+    the model is given the very same primitive results."""
+
+    def __init__(self, real_iv):
+        self.riv = real_iv
+        self.prec = 200
+        self.calls = []
+        import mpmath
+        self._to_rational = mpmath.libmp.to_rational
+        self.pi_iv = self._out(self.riv.pi)
+
+    def _frac(self, raw):
+        p, q = self._to_rational(raw)
+        return Fraction(int(p), int(q))
+
+    def _out(self, r):
+        return FakeI(self._frac(r._mpi_[0]), self._frac(r._mpi_[1]))
+
+    def _in(self, x):
+        lo = self.riv.mpf(x.a.numerator) / self.riv.mpf(x.a.denominator)
+        hi = self.riv.mpf(x.b.numerator) / self.riv.mpf(x.b.denominator)
+        return self.riv.mpf([lo.a, hi.b])
+
+    def mpf(self, n):
+        return FakeI.of(n)
+
+    @property
+    def pi(self):
+        return self.pi_iv
+
+    def _prim(self, name, x):
+        x = FakeI.of(x)
+        old = self.riv.prec
+        self.riv.prec = 120
+        try:
+            r = self._out(getattr(self.riv, name)(self._in(x)))
+        finally:
+            self.riv.prec = old
+        self.calls.append((name, x.a, x.b, r.a, r.b))
+        return r
+
+    def exp(self, x):
+        return self._prim("exp", x)
+
+    def log(self, x):
+        return self._prim("log", x)
+
+    def sqrt(self, x):
+        return self._prim("sqrt", x)
+
+    def sin(self, x):
+        return self._prim("sin", x)
+
+    def cos(self, x):
+        return self._prim("cos", x)
+
+
+def q4(*qs):
+    return " ".join("%d %d" % (Fraction(q).numerator, Fraction(q).denominator) for q in qs)
+
+
+def interval_eval_stream(ctx, trees):
+    """real_interval_eval, run with the injected interval context, against `ivEval (tablePrims …)`:
+    identical endpoints or both refuse."""
+    if not hasattr(K.real, "real_interval_eval"):
+        ctx.count("interval-eval:function-missing")
+        return
+    import mpmath
+    real_iv = mpmath.iv
+    try:
+        from integral import inequality
+        eval_bounds_fn = getattr(inequality, "eval_bounds", None)
+    except Exception:  # noqa
+        eval_bounds_fn = None
+    lines, impl = [], []
+    for tree in trees:
+        try:
+            t = build(tree)
+            if ty_tag(t.checked_get_type()) != "real":
+                continue
+        except Exception:  # noqa
+            continue
+        for which, fn in (("ivl", K.real.real_interval_eval), ("bnd", eval_bounds_fn)):
+            if fn is None:
+                continue
+            fake = FakeIvContext(real_iv)
+            mpmath.iv = fake
+            try:
+                with time_limit(20):
+                    r = fn(t)
+                res = ("ok", Fraction(r[0]), Fraction(r[1]))
+            except Timeout:
+                res = ("timeout",)
+            except Exception as e:  # noqa
+                res = ("rej", type(e).__name__)
+            finally:
+                mpmath.iv = real_iv
+            rows = " ".join("(%s %s)" % (c[0], q4(*c[1:])) for c in fake.calls)
+            lines.append("(%s %s (%s) (%s))" % (which, wire_str(to_wire(t, {})), rows, q4(fake.pi_iv.a, fake.pi_iv.b)))
+            impl.append((tree, t, res, which))
+    out = ctx.lean_driver(EXE, lines) if lines else []
+    if out is None:
+        return
+    nd = 0
+    for (tree, t, res, which), o in zip(impl, out):
+        ctx.case(("interval-eval", which, tree), nontrivial=res[0] == "ok")
+        ctx.count("interval-eval:%s:%s" % (which, res[0]))
+        if res[0] == "timeout":
+            continue
+        m = sexp.loads(o)
+        if m[0] == "ok":
+            mm = ("ok", Fraction(int(m[1][0]), int(m[1][1])), Fraction(int(m[1][2]), int(m[1][3])))
+        else:
+            mm = ("rej",)
+        ii = res if res[0] == "ok" else ("rej",)
+        if ii != mm:
+            nd += 1
+            if nd <= 3:
+                ctx.broken("correspondence:c05:interval-eval:" + which, "term=%s impl=%s model=%s" % (safe_str(t), res if res[0] != "ok" else ("ok", float(res[1]), float(res[2])), o[:200]))
+                ctx.coverage["disagreements_checked"] += 1
+
+
 # ---------------------------------------------------------------------------------------------
 # 6c. the six accept conditions of eval_inequality_expr against the model (bounds injected)
 # ---------------------------------------------------------------------------------------------
@@ -2175,9 +2379,9 @@ def run(ctx):
         rows = []
         ctx.broken("translate:c05:macro-table", "untranslatable: %r" % e)
     K.load()
-    proofs_ok = ctx.lean_props(["Holpy.C05.Props"], exes=[EXE])
+    proofs_ok = ctx.lean_props(LEAN_MODULES, exes=[EXE])
     if ctx.tier == "thorough" and proofs_ok:
-        ctx.lean_check_modules(["Holpy.C05.Props"])
+        ctx.lean_check_modules(LEAN_MODULES)
     ctx.coverage["trusted_base"] += [
         "correspondence harness harness/props/c05.py (generators, wire format writer reading Term fields)",
         "the macro table is the live registry kernel.theory.global_macros after importing every module that mentions register_macro / "
@@ -2189,10 +2393,11 @@ def run(ctx):
         "produces an atom and the model rejects. That the implementation rejects such goals too is checked by the forged-constant stream "
         "(fixes/C05-3: check_proof calls Theory.check_term on the argument of a trusted macro)",
         "reals are interpreted in ℚ in the Lean model: real_power only at integer-valued exponents; sqrt/pi/exp/log/trig are atoms there",
-        "const_inequality, when real_eval fails on a side: the interval evaluator real_interval_eval (mpmath.iv, outward rounding) is NOT modelled and "
-        "is trusted to return an enclosure; the decision taken from the enclosures IS modelled (intervalAccept, proved sound and tight, tied by the "
-        "interval-decision stream), and near-equal irrational goals with exactly known truth are sent through the real checker",
-        "real_norm and real_eq_comparison are judged by the oracle only: valuations 0, 1, -1, x = y, n in {0,1,2} plus random rationals for the free "
+        "const_inequality, when real_eval fails on a side: mpmath's iv primitives are trusted to return enclosures; the combination logic of "
+        "real_interval_eval IS modelled (ivEval, interval_eval_sound_given_enclosures) and tied by running the Python with an injected exact-rational "
+        "interval context; the decision taken from the enclosures is modelled (intervalAccept, sound and tight, interval-decision stream); near-equal "
+        "irrational goals with exactly known truth are sent through the real checker",
+        "real_norm is modelled (NormModel.lean on top of C10's PolyModel) and compared on every goal; it and real_eq_comparison are also judged by the oracle: valuations 0, 1, -1, x = y, n in {0,1,2} plus random rationals for the free "
         "variables and for opaque subterms"]
     # every trusted macro of the running implementation is classified (the Lean obligation says the same about Gen.lean)
     for name, level, mod in rows:
@@ -2214,6 +2419,16 @@ def run(ctx):
     interval_decision_stream(ctx)
     forged_stream(ctx)
     n_tf = theory_function_stream(ctx)
+    iv_trees = [x[3] for x in tf_terms(ctx, theory_function_symbols()) if x[2] == "real"]
+    for g in directed_goals():
+        gg = g[1] if isinstance(g, list) and g[0] == "neg" else g
+        if isinstance(gg, list) and len(gg) == 4 and gg[0] in ("eq", "lt", "le", "gt", "ge") and gg[1] == "real":
+            iv_trees += [gg[2], gg[3]]
+    for _, a, b in near_equal_bases():
+        iv_trees += [a, b]
+    rng_iv = ctx.rng("interval-eval")
+    iv_trees += [gen_sized_expr_irr(rng_iv, rng_iv.choice([1, 2, 3])) for _ in range(ctx.scale(150, 1500))]
+    interval_eval_stream(ctx, iv_trees)
     ctx.log("theory-function stream done: %d applications, %d const_inequality goals" % n_tf)
     ctx.log("near-equal stream (%d cases) and interval-decision stream done" % len(ne_cases))
     # random ground goals
@@ -2301,22 +2516,29 @@ def replay(ctx, rp):
 
 MANIFEST = {
     "text": "Lean theorems about an executable model (of the fixed code) of nat_eval/int_eval/real_eval and of the eval methods of the "
-            "level-0 arithmetic macros nat_eval, int_eval, int_const_ineq, real_eval, real_const_eq, real_compare, real_const_ineq and "
-            "const_inequality (exact branch, plus the six accept conditions of its interval branch): every accepted one-step proof asserts a "
-            "statement that is true in the typed standard semantics (ℕ with truncated subtraction, ℤ, ℚ with x/0 = 0) and is about terms of the "
-            "type the step is meant for; the accept conditions from enclosures are sound and cannot be relaxed. The table of all registered "
-            "macros with their trust level is the live registry of the running implementation (cross-checked with an AST scan) and every "
-            "level-0 macro must be classified (decide). The model is tied to the Python by differential runs through the real check_proof and by "
-            "injecting enclosures into eval_inequality_expr; every accepted sequent is judged by an independent exact evaluator, near-equal "
-            "irrational comparisons by the sign of a rational perturbation (confirmed at 1300 digits).",
-    "note": "Partial: for const_inequality goals that real_eval cannot compute, the interval evaluator real_interval_eval (fixes/C05-2, mpmath.iv "
-            "with outward rounding) is not modelled and is trusted to return enclosures; only the decision from the enclosures is modelled and "
-            "proved (interval_accept_sound/tight). real_norm (polynomial normaliser, util/poly.py) and real_eq_comparison (builds a proof term "
-            "through auto) have no Lean model and are judged by the oracle only, at the valuations 0, 1, -1, x = y, n in {0,1,2} and random "
-            "rationals for variables and opaque subterms; reals are modelled in ℚ (real power at integer exponents and at bases 0, 1). The model "
-            "speaks about terms of the theory; that goals with a constant at a non-instance of its declared type are rejected is checked on the "
-            "implementation by a directed stream (fixes/C05-3). Trusted: Lean kernel, propext/Classical.choice/Quot.sound, the harness generators "
-            "and wire writer, Fraction/mpmath/sympy.",
+            "level-0 arithmetic macros nat_eval, int_eval, int_const_ineq, real_eval, real_const_eq, real_compare, real_const_ineq, "
+            "const_inequality and real_norm: every accepted one-step proof asserts a statement that is true in the typed standard semantics "
+            "(ℕ with truncated subtraction, ℤ, ℚ with x/0 = 0) and is about terms of the type the step is meant for. real_norm "
+            "(convert_to_poly of data/real.py and data/nat.py on top of the polynomial layer proved for C10): an accepted equation holds under "
+            "every assignment of numbers to terms that respects numerals and operators, maximal non-polynomial subterms being opaque "
+            "(real_norm_macro_sound), and acceptance is exactly equality as polynomials over ℚ (real_norm_macro_complete/iff). const_inequality: "
+            "exact branch proved; for the interval branch the combination logic of real_interval_eval (case analysis, guards, which primitive on "
+            "which sub-interval) is proved to return an enclosure whenever the primitives of the interval context do "
+            "(interval_eval_sound_given_enclosures), and the six accept conditions from enclosures are sound and cannot be relaxed. The table of "
+            "all registered macros is the live registry (cross-checked with an AST scan) and every level-0 macro must be classified (decide). "
+            "Ties: differential runs through the real check_proof (all nine macros); real_interval_eval and eval_bounds run with an injected "
+            "exact-rational interval context whose primitive calls are recorded and handed to the model (identical endpoints required); "
+            "eval_inequality_expr with injected enclosures; every accepted sequent judged by an independent exact/high-precision evaluator; every "
+            "numeric function constant of the theory fed to every evaluator.",
+    "note": "Partial / trusted: the enclosure property of mpmath's iv primitives (conversion, + - * / ** abs, exp log sqrt sin cos, pi) is a "
+            "hypothesis of interval_eval_sound_given_enclosures, not proved; the value of a term there is taken in an abstract ordered field with "
+            "the real functions given abstractly. The link from the bounds of BOTH sides to the asserted comparison is intervalAccept "
+            "(interval_accept_sound/tight); the exact-vs-interval branch selection (eval_bounds) is modelled and tied but the end-to-end theorem "
+            "for const_inequality on irrational goals (incl. the polynomial-equality shortcut) is not assembled. real_norm is proved over ℚ "
+            "(polynomial identities over ℚ; real power at integer exponents); real_eq_comparison (builds a proof term through auto) has no Lean "
+            "model and is judged by the oracle only. The model speaks about terms of the theory; goals with a constant at a non-instance of its "
+            "declared type must be rejected (directed stream, fixes/C05-3). Trusted: Lean kernel, propext/Classical.choice/Quot.sound, the C10 "
+            "polynomial files (imported read-only), the harness generators and wire writer, Fraction/mpmath/sympy.",
     "design_ref": "DESIGN.md 4/C05",
 }
 FINDINGS = [
